@@ -66,13 +66,26 @@ def same(a, b):
 
 
 def check(d, schema, x):
+    try:
+        return check_inner(d, schema, x)
+    except (KeyError, IndexError, TypeError, AttributeError):
+        return False, "navigation-failed"        # a recorded path that cannot be followed is a violation, not a harness crash
+
+
+def check_inner(d, schema, x):
     cls = tp.CLS[d]
     try:
         errs = list(cls(schema).iter_errors(x))
     except Exception as e:
         raise HarnessEscape(type(e).__name__)
     tag = "valid" if not errs else "invalid"
+    for top in errs:
+        if top.parent is not None:
+            return False, tag
     for e in closure(errs):
+        for c in e.context:
+            if c.parent is not e:
+                return False, tag
         ap = list(e.absolute_path)
         asp = list(e.absolute_schema_path)
         if e.parent is not None:
